@@ -398,6 +398,18 @@ def _expand(fn, call, is_method, caller_locals, counter, site=None):
     return out, res
 
 
+def _after(stmts, line):
+    """Order the statements that take over the result AFTER the inlined
+    body (which got line + k * 1e-4)."""
+    for st in stmts:
+        for x in ast.walk(st):
+            if hasattr(x, 'lineno'):
+                if not hasattr(x, '_src_lineno'):
+                    x._src_lineno = x.lineno
+                x.lineno = line + 0.9
+    return stmts
+
+
 def _assign_result(st, res):
     """`targets = <result of the inlined helper>`; a tuple result bound to
     a tuple of names is split into one assignment per name (an element that
@@ -484,7 +496,8 @@ def inline_new_helpers(tree, ref):
                         continue
                     if res is not None:
                         out.extend(body)
-                        out.extend(_assign_result(st, res))
+                        out.extend(_after(_assign_result(st, res),
+                                          call.lineno))
                         continue
             out.append(st)
         return out
@@ -1139,7 +1152,8 @@ def inline_new_nested(tree, ref):
                             continue
                         if res is not None:
                             out.extend(body)
-                            out.extend(_assign_result(st, res))
+                            out.extend(_after(_assign_result(st, res),
+                                              call.lineno))
                             continue
                 out.append(st)
             return out
